@@ -136,6 +136,22 @@ def run(ctx):
             if r.random() < 0.5:
                 a_, b_ = (int(v) for v in r.choice(S, 2, replace=False))
                 q = [e for e in q if e != [a_] and e != [b_]] + [sorted([a_, b_])]
+            else:
+                # two scenarios whose pairs of event numbers read the same when written one after the other without a separator:
+                # (1, 1k) and (11, k)
+                S = max(S, 12)
+                k_ = int(r.integers(0, S - 10)); sa, sb = (int(v) for v in r.choice(S, 2, replace=False))
+                rest_p = [int(v) for v in r.permutation(S) if v not in (sa, sb)]; rest_q = [int(v) for v in r.permutation(S) if v not in (sa, sb)]
+                pp = [None] * S; qq = [None] * S
+                pp[1], pp[11] = sa, sb
+                if 10 + k_ != k_:
+                    qq[10 + k_], qq[k_] = sa, sb
+                for lst, rest in ((pp, rest_p), (qq, rest_q)):
+                    it = iter(rest)
+                    for i_ in range(S):
+                        if lst[i_] is None:
+                            lst[i_] = next(it)
+                p = [[v] for v in pp]; q = [[v] for v in qq]
         code = {"events": [list(map(int, e)) for e in comb_set(p, q)]}
         reqs.append({"op": "comb_set", "p": p, "q": q}); codes.append(code); cases.append({"p": p, "q": q}); comps.append('comb_set')
         ctx.count('comb:groups=%d' % min(len(code['events']), 4))
